@@ -10,7 +10,7 @@ import (
 )
 
 // runPath executes one path of a root, steered by prefix.
-func runPath(P *Prog, sol, alt *Solver, root Root, prefix []Dec, wantWitness bool, covered map[string]bool, trace bool) (pr *PathResult) {
+func runPath(P *Prog, sol, alt *Solver, root Root, prefix []Dec, wantWitness, wantProbe bool, covered map[string]bool, trace bool) (pr *PathResult) {
 	pr = &PathResult{}
 	e := &Exec{P: P, ctx: NewCtx(), sol: sol, alt: alt, prefix: prefix,
 		pcSet:     map[*Term]bool{},
@@ -23,6 +23,7 @@ func runPath(P *Prog, sol, alt *Solver, root Root, prefix []Dec, wantWitness boo
 		fnSeen:    map[*ssa.Function]bool{},
 		maxSteps:  root.MaxSteps,
 		maxDecs:   root.MaxDecs,
+		libPrio:   root.LibPrio,
 		trace:     os.Getenv("GOSYM_TRACE") != "",
 	}
 	if e.maxSteps == 0 {
@@ -82,7 +83,7 @@ func runPath(P *Prog, sol, alt *Solver, root Root, prefix []Dec, wantWitness boo
 		}
 		if wantWitness || needCover {
 			m := e.getModel()
-			w := &Witness{Nondet: e.tapeValues(m), Chooses: append([]int64{}, e.chooses...), Decs: append([]Dec{}, e.decs...)}
+			w := &Witness{Nondet: e.tapeValues(m), Chooses: append([]int64{}, e.chooses...), Decs: append([]Dec{}, e.decs...), Env: append([]int64{}, e.envTrace...)}
 			for _, o := range e.observes {
 				ov := ObsVal{Label: o.label, Lens: o.lens, Opaque: o.opaque}
 				for _, t := range o.terms {
@@ -106,11 +107,14 @@ func runPath(P *Prog, sol, alt *Solver, root Root, prefix []Dec, wantWitness boo
 	pr.Inconclusive = e.inconcl
 	pr.FuncsSeen = e.funcsSeen
 	pr.NDec = e.newDecs
+	pr.RaceChecks = e.raceChecks
 	switch r := res.(type) {
 	case nil:
 		pr.Status = "ok"
 	case *Failure:
 		pr.Status = "fail"
+		r.Env = append([]int64{}, e.envTrace...)
+		r.LibPrio = e.libPrio
 		pr.Failure = r
 		pr.Reason = r.Kind + ": " + r.Msg + " @" + r.Site
 	case *pathAbort:
@@ -119,6 +123,15 @@ func runPath(P *Prog, sol, alt *Solver, root Root, prefix []Dec, wantWitness boo
 		} else {
 			pr.Status = "inconclusive"
 			pr.Reason = r.kind + ": " + r.msg
+			if wantProbe && (r.kind == "unsupported" || r.kind == "steps" || r.kind == "unwind" || r.kind == "crash") && !hasSched(e.decs) {
+				// the engine cannot finish this path: keep a model of what it has so far, the native
+				// replay runs the real code on it (inputs the path did not reach are zero)
+				func() {
+					defer func() { recover() }()
+					m := e.getModel()
+					pr.Probe = &Witness{Nondet: e.tapeValues(m), Chooses: append([]int64{}, e.chooses...), Decs: append([]Dec{}, e.decs...)}
+				}()
+			}
 		}
 	default:
 		pr.Status = "inconclusive"
